@@ -12,7 +12,7 @@ RULE = ("generated families weighted to sequences (count const/field/expr/callab
         "before the data runs out, a false when, or a run-time selected reference; distinct = (source, raw, offset)")
 ASSUMPTIONS = ["reference parser bv/ir.py trusted", "fields selected at run time are restricted to those whose meaning does not depend on class options"]
 
-PROF = gen.profile(move=0.05, until_p=0.5, w={"int": 3, "data": 3, "bits": 1, "ref": 4, "refsel": 4, "seq": 7, "opt": 5, "em": 0})
+PROF = gen.profile(defaults=0.3, move=0.05, until_p=0.5, w={"int": 3, "data": 3, "bits": 1, "ref": 4, "refsel": 4, "seq": 7, "opt": 5, "em": 0})
 
 
 def shards(tier):
